@@ -196,9 +196,10 @@ A = {
         "thorough": [None, "1.0", "2.0", "-inf", "-0.0", "0.0", "inf", "9007199254740992.0", "9007199254740994.0", "-1.152921504606847e+18"],
         "key": [None, "1.0", "2.0"],
     },
+    # -1 and -2 have equal Python hashes (as have 0 and 2**61-1): keys must be compared, not their hashes
     "i8": {
-        "quick": [0, 1, 2, -1],
-        "thorough": [0, 1, 2, -1, 9007199254740993, -9223372036854775808],
+        "quick": [0, 1, 2, -1, -2],
+        "thorough": [0, 1, 2, -1, -2, 9007199254740993, -9223372036854775808, 2305843009213693951],
         "key": [0, 1, 2],
     },
     "u1": {"quick": [0, 5, 200], "thorough": [0, 5, 200], "key": [0, 5, 200]},
